@@ -146,7 +146,7 @@ pub fn main(opts: &Opts) {
             cases.push((n, None));
             // every fault position × kind (exhaustive)
             for pos in 1..=(6 + n) {
-                for f in [Fault::RpcError, Fault::Malformed, Fault::WrongId, Fault::CloseBefore, Fault::CloseAfter] {
+                for f in [Fault::RpcError, Fault::ErrWarnOk, Fault::ErrCount, Fault::WarnOk, Fault::Malformed, Fault::WrongId, Fault::CloseBefore, Fault::CloseAfter] {
                     cases.push((n, Some((pos, f))));
                 }
             }
@@ -159,6 +159,8 @@ pub fn main(opts: &Opts) {
         };
         let case = format!("{n};{ftok}");
         let o = run_one(&rt, irrd.port, n, fault.clone());
+        // a warning with <ok/> is a positive acknowledgement: for the model there is no fault
+        let ftok = if matches!(fault, Some((_, Fault::WarnOk))) { "none".to_string() } else { ftok };
         let closing = matches!(fault, Some((_, Fault::CloseBefore)) | Some((_, Fault::CloseAfter)));
         let has = |x: &str| if o.names.iter().any(|m| m == x) { 1 } else { 0 };
         let obs = format!(
